@@ -8,14 +8,16 @@ from .spec import REGISTRY
 from .symexec import Exec, Unsupported
 
 
-def verify_one(qual, mode="q", timeout_ms=10000, verbose=False, variant=None, k=4, skip=None, only_props=None):
+def verify_one(qual, mode="q", timeout_ms=10000, verbose=False, variant=None, k=4, skip=None, only_props=None,
+               root=None, budget=None):
     spec = REGISTRY[qual]
     ex = Exec(mode=mode, timeout_ms=timeout_ms, verbose=verbose, k=k)
     ex.skip = set(skip or ())
     ex.only_props = set(only_props) if only_props else None
+    ex.leftover = []
     t = time.time()
     try:
-        obs = ex.verify(spec, variant)
+        obs = ex.verify(spec, variant, root=root, budget=budget)
         err = None
     except Unsupported as e:
         obs = ex.obligations
@@ -24,7 +26,7 @@ def verify_one(qual, mode="q", timeout_ms=10000, verbose=False, variant=None, k=
         obs = ex.obligations
         err = "checker-error: %s\n%s" % (e, traceback.format_exc())
     return dict(qual=qual, mode=mode, obligations=[o.as_dict() for o in obs], error=err, secs=time.time() - t,
-                stats=ex.stats, variant=variant)
+                stats=ex.stats, variant=variant, leftover=ex.leftover, root=root)
 
 
 if __name__ == "__main__":
